@@ -1,10 +1,12 @@
 """shared orchestration for the search-semantics family (C01, C02, C03, ...): run drivers of
 harness/drivers/search, validate the traces with Trace_Search.tla under a given Check constant."""
 from collections import Counter
+import os
+
 from lib import vk
 
 PKG = "search"
-FILES = ["c01_search_test.go", "c02_ranges_test.go"]
+FILES = ["c01_search_test.go", "c02_ranges_test.go", "c01_wide_test.go"]
 
 
 def is_corpus(ln):
@@ -16,7 +18,10 @@ def run_family(ctx, pid, cfg, runs, why_prefix, nontrivial, timeout=1500, classi
     total = 0
     searches = 0
     nt = 0
+    only = os.environ.get("VERIF_ONLY_TEST")   # debugging aid: run one family
     for test, env in runs:
+        if only and only not in test:
+            continue
         rc, out, trace = ctx.driver(PKG, "^%s$" % test, FILES, env=env, out="trace_%s%s.ndjson" % (test, tag), timeout=timeout)
         if rc != 0:
             raise vk.Inconclusive("driver %s failed:\n%s" % (test, out[-3000:]))
